@@ -475,6 +475,34 @@ theorem exclusive_section_alone (f : Facts) (hd : lockDiscipline f = true)
   cases hpre'
   exact halone i hi ((hsound.2.2 (site i) (hsite i)).2 hmut)
 
+/-- **Snapshots are consistent.** While an instance `r` holds the lock in ANY
+mode (a reader taking a `to_vec` snapshot, a `contains` scan, another writer), no
+other instance writes: a write by `j` between `r`'s acquisition and `r`'s release
+forces `j = r`. So everything one operation reads under its guard comes from one
+state of the list. (The oracle of the reader threads of `swap-rust` /
+`swap-script`: every snapshot is a permutation of whole elements.) -/
+theorem no_foreign_write_while_held (f : Facts) (hd : lockDiscipline f = true)
+    (site : ι → LockSite) (hsite : ∀ i, site i ∈ f.lockSites)
+    (pre mid post : List (Ev ι)) (r j : ι) (Hf : List ι)
+    (hmut : siteNeedsExcl f (site j) = true) (hnorel : Ev.rel r ∉ mid)
+    (hrun : runLock (lockKind f.listCell) (fun i => (site i).mode) []
+      ((pre ++ .acq r :: mid) ++ .acc j true :: post) = some Hf) :
+    j = r := by
+  have hone := shared_list_write_exclusive f hd site hsite (pre ++ .acq r :: mid) post j true Hf hmut hrun
+  obtain ⟨H0, hpre, hrest⟩ := run_append pre (.acq r :: mid) [] [j] hone
+  simp only [runLock] at hrest
+  cases hs : stepLock (lockKind f.listCell) (fun i => (site i).mode) H0 (.acq r) with
+  | none => simp [hs] at hrest
+  | some H1 =>
+    simp only [hs] at hrest
+    have hr1 : r ∈ H1 := by
+      simp only [stepLock] at hs
+      split at hs
+      · cases hs; exact List.mem_cons_self ..
+      · cases hs
+    have := held_preserved mid H1 [j] hr1 hnorel hrest
+    exact (List.mem_singleton.mp this).symm
+
 /-- **(a), end to end: N threads × swap leave a permutation.** Any number of
 instances each swap two positions of one shared list, each through a lock site of
 the generated facts under which a writing method runs. If the discipline holds,
